@@ -460,7 +460,7 @@ def r15_5(ctx, rep, roles):
         caller = fx.fns[cs.caller]
         eng = sym.Engine(fx, no_inline={new["id"]}, inline_only=set(getattr(fx, "new_helpers", ())))
         ok = False
-        for row in eng.table(cs.caller):
+        for row in eng.table(cs.real_caller):
             for e in row.calls():
                 if e[1] == new["id"]:
                     ls = T.resolve_locals(eng, row.store, e[2][1])
